@@ -672,7 +672,9 @@ def relabel_stream(run, rng, thorough):
         M = np.array(gen.UNIMODULAR[mname])
         cell0, _ = gen.make_cell(name)
         cell1, qmap, smap = gen.relabelled_cell(cell0, M)
-        sm0 = np.diag(rng.choice([[2, 1, 1], [1, 2, 1], [1, 1, 2]]))
+        # a supercell that keeps the point group of the crystal (the site-symmetry average of group velocities and the
+        # irreducible-mesh reduction assume that the force constants have it); low-symmetry cells: any
+        sm0 = np.diag({"hcp": [2, 2, 1], "wurtzite": [2, 2, 1]}.get(name, [2, 2, 2] if name in ("cscl", "nacl_prim", "zincblende_prim", "rhombo") else rng.choice([[2, 1, 1], [1, 2, 1], [1, 1, 2]])))
         phs = []
         for cell, sm in ((cell0, sm0), (cell1, smap(sm0))):
             ph = phonopy.Phonopy(cell, supercell_matrix=sm, primitive_matrix="P", log_level=0)
@@ -743,11 +745,15 @@ def relabel_stream(run, rng, thorough):
                     run.violation("Phonopy.run_qpoints", "spectrum-depends-on-description", "LO-TO split frequencies at Gamma (same Cartesian approach direction) differ between the descriptions by %.3g THz" % float(np.abs(np.array(a_) - np.array(b_)).max()),
                                   dict(info, q=[0, 0, 0], direction=d0.tolist()))
             # Gamma-centred odd mesh: weights sum and mesh average of the eigenvalues
-            ph0.run_mesh([3, 3, 3], is_gamma_center=True)
+            # (full grids: the pair-potential force constants of an anisotropic supercell need not have the point-group
+            # symmetry of the primitive cell that the irreducible-mesh reduction assumes)
+            ph0.run_mesh([3, 3, 3], is_gamma_center=True, is_mesh_symmetry=False)
             m0 = ph0.get_mesh_dict()
-            w0, w1 = np.array(m0["weights"], dtype=float), np.array(rm["weights"], dtype=float)
+            ph1.run_mesh([3, 3, 3], is_gamma_center=True, is_mesh_symmetry=False)
+            m1 = ph1.get_mesh_dict()
+            w0, w1 = np.array(m0["weights"], dtype=float), np.array(m1["weights"], dtype=float)
             avg0 = (w0[:, None] * _lam(m0["frequencies"], fac)).sum() / w0.sum()
-            avg1 = (w1[:, None] * _lam(rm["frequencies"], fac)).sum() / w1.sum()
+            avg1 = (w1[:, None] * _lam(m1["frequencies"], fac)).sum() / w1.sum()
             run.count("mesh averages across descriptions", section="oracle")
             if w0.sum() != w1.sum() or abs(avg0 - avg1) > 1e-9 * max(1.0, abs(avg0)):
                 run.violation("Phonopy.run_mesh", "mesh-average-depends-on-description", "weights sum / mesh average of the eigenvalues on a Gamma-centred 3x3x3 mesh differ between the descriptions (%r vs %r)" % (avg0, avg1), info)
